@@ -22,6 +22,7 @@ var props = []Prop{
 			{Harness: "reporting.ZZC19K2", Desc: "readSourceLines: arbitrary cached file of 0..5 lines (opaque contents), arbitrary diagnostic line in [1,2^31): window = lines max(1,L-2)..min(n,L+1) with their numbers; shorter-than-expected files give an empty or partial window, never a failure",
 				Bounds: map[string]interface{}{"file_lines": "0..5", "diagnostic_line": "1..2^31-1"}},
 			{Harness: "reporting.ZZC19K2Unreadable", Desc: "ReadFile error degrades to no excerpt", Bounds: map[string]interface{}{"diagnostic_line": "any int"}},
+			{Harness: "reporting.ZZC19ShortRead", Desc: "ReportViolation end to end with a ReadFile that delivers a prefix of the parsed text: every cut that loses the byte before the reported column (file ends before the line or inside it before the column) gives header + help link, no excerpt and no caret", Bounds: map[string]interface{}{"content": "4 lines, diagnostic on line 3 column 30", "cut": "0 .. offset of the reported column - 1 (all, pinned)"}},
 			{Harness: "reporting.ZZC19Utf8", Desc: "multi-byte characters: a one-line file of three characters, each arbitrary in {a, TAB, 2-byte e-acute, 3-byte euro sign, nothing}, column = byte column of any character boundary: the whole rendered message, with ONE caret cell per character before the column", Bounds: map[string]interface{}{"characters": 3, "alphabet": 5}},
 			{Harness: "reporting.ZZC19Utf8x4", Tier: "thorough", Desc: "the same with four characters", Bounds: map[string]interface{}{"characters": 4}},
 			{Harness: "reporting.ZZC19Utf8Long", Desc: "truncation never cuts a character: 308-byte line of 150 two-byte characters + ASCII text, column = byte column of ANY character: the shown piece begins and ends at character boundaries, the caret column addresses the reported character, length bound", Bounds: map[string]interface{}{"line": "150 x 2-byte + 8 ASCII", "column": "any character start"}},
@@ -171,7 +172,7 @@ func init() {
 				{Harness: "zzverif/zzh.ZZC03Cross", Desc: "uses in a directly importing package (facts), same-named local function and method", Bounds: map[string]interface{}{"skeleton": "c03SrcD + c03SrcU", "holes": 3}},
 				{Harness: "zzverif/zzh.ZZC03TwoPkgs", Desc: "two imported packages declaring a same-named @testonly type, both used in one file", Bounds: map[string]interface{}{"skeleton": "c03SrcD1/D2/U2", "holes": 2}},
 			},
-			Outside:     []string{"generics; dot-imports; external test packages (package d_test) as separate passes"},
+			Outside:     []string{"generics; external test packages (package d_test) as separate passes", "a site that names two @testonly types at once (map[TJ]TH): one report per site", "aliases of func / struct types that contain a @testonly type", "a @testonly init / _ function beside unannotated ones of the same name"},
 			Assumptions: []string{"program skeletons parsed/type-checked by go/parser + go/types; facts passed in-process; file names flow only through token.FileSet.Position"},
 		},
 	)
